@@ -60,6 +60,12 @@ struct DeclOpts
 
 static std::string gen_value(vf::Src& src)
 {
+    // now and then a long value (lengths around powers of two)
+    if (src.range(0, 199) == 199)
+    {
+        static const int lens[] = { 255, 256, 257, 1023, 1024, 1025, 4096, 5000 };
+        return std::string(static_cast<std::size_t>(lens[src.index(8)]), static_cast<char>('a' + src.irange(0, 3)));
+    }
     switch (src.weighted({ 70, 20, 10 }))
     {
     case 0:
@@ -434,7 +440,7 @@ static void gen_c02(vf::Src& src, Case& c)
         }
         else if (e.kind == MULTI)
         {
-            int k = src.coin(65) ? src.irange(1, 4) : 0;
+            int k = src.coin(65) ? (src.coin(95) ? src.irange(1, 4) : src.irange(16, 40)) : 0;
             std::vector<Item> s;
             for (int i = 0; i < k; ++i)
             {
@@ -449,7 +455,7 @@ static void gen_c02(vf::Src& src, Case& c)
         }
         else
         {
-            int k = src.coin(70) ? src.irange(1, 5) : 0;
+            int k = src.coin(70) ? (src.coin(95) ? src.irange(1, 5) : src.irange(100, 300)) : 0;
             e.want_count = k ? k : (e.has_default ? e.tdef : 0);
             if (k == 0 && e.reversible && src.coin(40))
             {
@@ -471,7 +477,7 @@ static void gen_c02(vf::Src& src, Case& c)
         std::string pool = letter_occ;
         while (!pool.empty())
         {
-            int k = src.irange(1, std::min<int>(4, static_cast<int>(pool.size())));
+            int k = src.irange(1, std::min<int>(pool.size() > 50 ? 80 : 4, static_cast<int>(pool.size())));
             std::string t = "-";
             for (int i = 0; i < k; ++i)
             {
@@ -483,7 +489,7 @@ static void gen_c02(vf::Src& src, Case& c)
         }
     }
     // positionals
-    int np = src.coin(60) ? src.irange(1, 5) : 0;
+    int np = src.coin(60) ? (src.coin(95) ? src.irange(1, 5) : src.irange(17, 70)) : 0;
     for (int i = 0; i < np; ++i)
         c.want_pos.push_back(gen_value(src));
     c.greedy = np > 0 && src.coin(25);
@@ -765,7 +771,8 @@ static void gen_c11(vf::Src& src, Case& c, bool exhaustive)
         case 2:
             if (!e.short_.empty())
             {
-                st.argv.push_back("-" + std::string(static_cast<std::size_t>(src.irange(2, 4)),
+                st.argv.push_back("-" + std::string(static_cast<std::size_t>(src.coin(90) ? src.irange(2, 4)
+                                                                                         : src.irange(100, 300)),
                                                     e.short_[0]));
                 break;
             }
@@ -807,12 +814,13 @@ static void gen_c12(vf::Src& src, Case& c)
     gen_limit(src, c);
     Step st = blank_step(c);
     // steer the number of positionals to limit-1, limit, limit+1
-    int target = c.limit < 0 ? src.irange(0, 6)
+    int target = c.limit < 0 ? (src.coin(92) ? src.irange(0, 6) : src.irange(30, 300))
                              : std::max<int>(0, static_cast<int>(c.limit) + src.irange(-1, 1));
     int placed = 0;
     bool after_dd = false;
     int guard = 0;
-    while ((placed < target || src.coin(30)) && guard++ < 14)
+    const int guard_max = target > 6 ? 400 : 14;
+    while ((placed < target || src.coin(30)) && guard++ < guard_max)
     {
         int w = static_cast<int>(src.weighted({ 35, 25, 15, 25 }));
         if (w == 0)
